@@ -18,7 +18,7 @@ LEVEL = "exploration"
 RULE = (
     "one case per (history, prefix, probe): histories of 1-12 assemblies in one process (valid programs, programs failing in the scanner, "
     "parser, expansion, label pass and emission, .map programs, other ROM types, programs whose data ends with the last byte of a mapped region, programs that abandon an expression half-way, programs re-using the probes' macro/symbol/label/table/"
-    "file names with other contents, file-API and in-process CLI runs) followed after every prefix by 33 probes (LoROM, HiROM, low2, .map, "
+    "file names with other contents, file-API and in-process CLI runs) followed after every prefix by 38 probes (LoROM, HiROM, low2, .map, "
     "macros, tables, .incbin, -D, failing probes); each probe result (blocks, labels, root symbols, error kind and text with object "
     "addresses normalised) is compared with the same probe assembled alone in a fresh interpreter, and probes are repeated; batches of probes are also assembled on Program objects that were all constructed before the first of them ran; distinct by "
     "hash of (history prefix, probe); non-trivial = every comparison against a fresh-process baseline"
@@ -81,6 +81,13 @@ def fixed_probes() -> list[dict]:
         {"name": "api_text_accented", "via": "api", "fmt": "patch", "rom": "low", "files": {"acc.tbl": "01=c\n02=a\n03=f\n8A=\u00e9\n8B=\u30a2\n"},
          "src": "*=0x008000\n.table 'acc.tbl'\n.text 'caf\u00e9\u30a2'\ndialog_end:\n.dl dialog_end\n"},
         {"name": "api_plain", "via": "api", "fmt": "sfc", "rom": "high", "src": "*=0xC08000\nstart:\nlda.w #0x1234\n.dl start\n"},
+        # the same ranges as the histories' maps, every line with its flag spelled out (writable=0) / the flag left out
+        {"name": "map_flag_spelled", "src": MAP_ODD.replace("\n", " writable=0\n") + "*=0x808000\nstart:\n.db 6\n.dl start\n", "rom": None},
+        {"name": "map_flag_spelled_lo", "src": MAP_LO.replace(" mirror_bank_range=0x80, 0xcf\n", " mirror_bank_range=0x80, 0xcf writable=0\n") + "*=0x018000\nstart:\n.db 6\n.dl start\n", "rom": None},
+        {"name": "map_ram_flag_true_like", "src": MAP_LO.replace("writable=1", "writable=2") + "*=0x018000\n@=0x7e0000\nstart:\n.db 6\n*=0x028000\n.dl start\n", "rom": None},
+        # a macro that takes a block, with the names the other probes use as constants and labels; a splice of a name nobody bound
+        {"name": "block_argument", "src": "*=0x008000\n.macro wrap_m(start, pa) {\n.db pa\n{{start}}\n.db pa + 1\n}\nwrap_m({\nlda.w #0x1234\n}, 7)\nstart:\n.dl start\n", "rom": None},
+        {"name": "fail_splice_unbound", "src": "*=0x008000\n.db 1\n{{shared_blk}}\n.db 2\n", "rom": None},
         {"name": "defines", "src": "*=0x008000\n.dw DEFQ, shared_k\n", "rom": None, "defines": {"DEFQ": 0x1234, "shared_k": 2}},
     ]
 
@@ -188,6 +195,15 @@ def history_action(rng: random.Random) -> dict:
         # a source file that is no valid UTF-8 (a comment saved as Latin-1) through a file front end: it fails, and that is all
         return {"what": "undecodable_source", "via": rng.choice(["api", "cli"]), "fmt": "patch" if rng.random() < 0.5 else "sfc", "rom": rng.choice(["low", "high"]),
                 "src": f"; caf\ue0ff au lait\n*={addr:#x}\n.db 1\n"}
+    if 0.07 <= extra < 0.12:
+        # a macro taking a block, its parameter named like the constants, labels and macros of other sources
+        nm = rng.choice(["start", "shared_k", "shared_blk", "after_text", "ram_code", "inc_l", "region_k", "DEFQ", "pa", "shared_l", "dialog_end", "out_l"])
+        return {"what": "block_argument", "src": f"*={addr:#x}\n.macro wrap_q({nm}) {{\n{{{{{nm}}}}}\n.db 1\n{{{{{nm}}}}}\n}}\nwrap_q({{\nnop\nrts\n}})\n" + rng.choice(["", "lda.w nowhere_q\n"]), "rom": None}
+    if 0.12 <= extra < 0.17:
+        # the maps of other sources with the ROM lines' flag spelled out (writable=0), or left out where they spell it
+        mp = rng.choice([MAP_LO, MAP_ODD])
+        mp = "".join((ln + " writable=0" if "writable" not in ln else ln.replace(" writable=1", rng.choice([" writable=1", " writable=3", ""]))) + "\n" for ln in mp.splitlines())
+        return {"what": "map_flags", "src": mp + f"*={rng.choice([0x008000, 0x808000, 0xC08000]):#x}\n.db 1\nstart:\n.dl start\n", "rom": rom}
     if extra < 0.07:
         return {"what": "map_without_identifier", "src": ".map bank_range=0x00, 0x3f addr_range=0x8000, 0xffff mask=0x8000\n*=0x008000\n.db 1\n", "rom": None}
     k, mk = rng.randrange(256), rng.randrange(256)
